@@ -628,6 +628,7 @@ impl Transformer {
         let output = if self.context.real_svg {
             (OutputList::raw(input), None)
         } else {
+            input.check_doctype_entities()?;
             process_events(input, &mut self.context)?
         };
         self.postprocess(output, writer)
